@@ -267,4 +267,28 @@ def aimed_ops(rnd, info, n):
         ops += target()
         if rnd.random() < 0.3:
             ops += target()
+    return ops + copy_ops(info)
+
+
+def copy_ops(info):
+    """read a mis-sized block ; DC (the long-lived data reader is replaced by sqfs_copy of itself) ; the same read again
+    = a cache hit on the COPY's buffer.  data_reader_copy has to hand out block_size bytes per cached block
+    (/repo fix F31: it allocated only the valid bytes, the read copies up to block_size).  Own generator: the op
+    lists in front of these stay what they were."""
+    import random
+    bs = info["bs"]
+    sc = info["scen"]
+    r2 = random.Random(info["slen"] * 7919 + bs)
+    ops = []
+    for nm, k in (("only-short", 0), ("raw-short", 1), ("mid-short", 1), ("first-short", 0), ("last-short", 1),
+                  ("raw-short-last", 0), ("short-then-sparse", 0), ("long", 1)):
+        s = sc[nm]
+        q = "F %d %d %d" % (s["ref"], k * bs, r2.choice([bs, bs, bs, 2 * bs, max(1, info["slen"] + 1)]))
+        ops += ["F %d 0 %d" % (sc["ok0"]["ref"], bs), q, "DC", q]
+        if r2.random() < 0.5:   # the copy is used by another file, then comes back to the block
+            ops += ["F %d %d %d" % (sc["ok1"]["ref"], bs, bs), q, "DC", "DC", q]
+    for nm in ("f-in", "f-past", "f-raw-past", "f-short2", "f-blk+short", "f-full-in"):
+        f = info["frag"][nm]
+        q = r2.choice(["G %d" % f["ref"], "F %d 0 %d" % (f["ref"], f["size"]), "T %d 0" % f["ref"]])
+        ops += ["G %d" % info["fill"][0], q, "DC", q]
     return ops
